@@ -567,6 +567,133 @@ def extract_vocab(repo):
     return types, wrappers, procs, read_tags, write_tags, key_tag + key_writes, lib_wrap
 
 
+KNOWN_FIELD_ATTRS = {"rename", "default", "skip_serializing_if", "with"}
+KNOWN_STRUCT_ATTRS = {"rename", "rename_all", "deny_unknown_fields", "default"}
+
+
+def _serde_items(text, where):
+    """the comma-separated items of the #[serde(...)] attributes in text -> {name: value or True}; nested
+    parentheses and quoted values respected"""
+    items = {}
+    for m in re.finditer(r"#\[serde\((.*?)\)\]", text, re.S):
+        body, depth, cur, parts, inq = m.group(1), 0, "", [], False
+        for ch in body:
+            if ch == '"':
+                inq = not inq
+            if not inq and ch in "([":
+                depth += 1
+            if not inq and ch in ")]":
+                depth -= 1
+            if ch == "," and depth == 0 and not inq:
+                parts.append(cur)
+                cur = ""
+            else:
+                cur += ch
+        parts.append(cur)
+        for part in parts:
+            part = part.strip()
+            if not part:
+                continue
+            km = re.match(r'^(\w+)\s*(?:=\s*"([^"]*)")?$', part)
+            if not km:
+                raise RuntimeError("serde attribute not understood in %s: %r" % (where, part))
+            if km.group(1) in items:
+                raise RuntimeError("serde attribute given twice in %s: %r" % (where, part))
+            items[km.group(1)] = km.group(2) if km.group(2) is not None else True
+    return items
+
+
+def extract_schema(repo):
+    """The serde schema of src/designspace.rs, field by field. Per struct: (name, rename, rename_all,
+    deny_unknown_fields, container default); per field: (rust name, XML key, Rust type, skip_serializing_if
+    predicate, default ("" | "default" | "fn:<path>"), with-module). Per enum: (name, rename_all, variants,
+    the #[default] variant). Bodies of the crate-local predicates / default functions that are referred to.
+    Anything not understood raises: a broken tie, never a silent skip."""
+    src = _strip_tests(open(os.path.join(repo, "src", "designspace.rs")).read())
+    structs, enums, helpers = [], [], []
+    referred = set()
+    for m in re.finditer(r"((?:[ \t]*(?:///[^\n]*|#\[[^\n]*\])\n)*)[ \t]*pub struct (\w+)\s*\{(.*?)\n\}", src, re.S):
+        head, name, body = m.group(1), m.group(2), m.group(3)
+        sa = _serde_items(head, "struct " + name)
+        unknown = set(sa) - KNOWN_STRUCT_ATTRS
+        if unknown:
+            raise RuntimeError("struct %s: unknown serde attribute(s) %s" % (name, sorted(unknown)))
+        fields, pending = [], ""
+        for line in body.split("\n"):
+            t = line.strip()
+            if t.startswith("#["):
+                if not t.startswith("#[serde("):
+                    raise RuntimeError("struct %s: attribute not understood: %s" % (name, t))
+                pending += t + "\n"
+            elif t.startswith("pub "):
+                fm = re.match(r"pub (\w+)\s*:\s*(.+?),?$", t)
+                if not fm:
+                    raise RuntimeError("struct %s: field not understood: %s" % (name, t))
+                fa = _serde_items(pending, "%s.%s" % (name, fm.group(1)))
+                unknown = set(fa) - KNOWN_FIELD_ATTRS
+                if unknown:
+                    raise RuntimeError("%s.%s: unknown serde attribute(s) %s" % (name, fm.group(1), sorted(unknown)))
+                dflt = ""
+                if fa.get("default") is True:
+                    dflt = "default"
+                elif "default" in fa:
+                    dflt = "fn:" + fa["default"]
+                    referred.add(fa["default"])
+                skip = fa.get("skip_serializing_if", "")
+                if skip is True:
+                    raise RuntimeError("%s.%s: skip_serializing_if without a predicate" % (name, fm.group(1)))
+                if skip:
+                    referred.add(skip)
+                fields.append((fm.group(1), fa.get("rename", fm.group(1)), fm.group(2).replace(" ", ""), skip, dflt,
+                               fa.get("with", "") if fa.get("with") is not True else "?"))
+                pending = ""
+            elif t and not t.startswith("//"):
+                raise RuntimeError("struct %s: line not understood: %s" % (name, t))
+        structs.append((name, sa.get("rename", "") if sa.get("rename") is not True else "?", sa.get("rename_all", "") or "",
+                        "deny" if sa.get("deny_unknown_fields") else "", "default" if sa.get("default") else "", fields))
+    for m in re.finditer(r"((?:[ \t]*(?:///[^\n]*|#\[[^\n]*\])\n)*)[ \t]*pub enum (\w+)\s*\{(.*?)\n\}", src, re.S):
+        head, name, body = m.group(1), m.group(2), m.group(3)
+        ea = _serde_items(head, "enum " + name)
+        if set(ea) - {"rename_all"}:
+            raise RuntimeError("enum %s: unknown serde attribute(s) %s" % (name, sorted(set(ea) - {"rename_all"})))
+        variants, dv, pend = [], "", ""
+        for line in body.split("\n"):
+            t = line.strip()
+            if t.startswith("#["):
+                if t != "#[default]":
+                    raise RuntimeError("enum %s: attribute not understood: %s" % (name, t))
+                pend = t
+            elif re.match(r"^\w+,$", t):
+                variants.append(t[:-1])
+                if pend:
+                    dv = t[:-1]
+                pend = ""
+            elif t and not t.startswith("//"):
+                raise RuntimeError("enum %s: variant not understood: %s" % (name, t))
+        enums.append((name, ea.get("rename_all", ""), variants, dv))
+    # crate-local functions referred to by skip_serializing_if / default: their bodies, blanks removed
+    std_known = {"Option::is_none", "Vec::is_empty", "Dictionary::is_empty"}
+    for r in sorted(referred - std_known):
+        if "::" in r:
+            ty, fn = r.split("::")
+            im = re.search(r"impl %s\s*\{(.*?)\n\}" % re.escape(ty), src, re.S)
+            scope = im.group(1) if im else ""
+        else:
+            fn, scope = r, src
+        bm = re.search(r"fn %s\s*\([^)]*\)\s*(?:->\s*[^{]+)?\{(.*?)\n\s*\}" % re.escape(fn), scope, re.S)
+        if not bm:
+            raise RuntimeError("function %s (named in a serde attribute) not found" % r)
+        helpers.append((r, re.sub(r"\s+", "", bm.group(1))))
+    # the Helper struct that serde_from_field! derives Deserialize for (its field carries no serde attribute)
+    mm = re.search(r"macro_rules!\s*serde_from_field\s*\{(.*?)\n    \}", src, re.S)
+    if not mm:
+        raise RuntimeError("macro serde_from_field! not found")
+    hm = re.search(r"#\[derive\(::serde::Deserialize\)\]\s*(struct Helper\s*\{.*?\})", mm.group(1), re.S)
+    if not hm:
+        raise RuntimeError("deserialising Helper of serde_from_field! not found")
+    return structs, enums, helpers, re.sub(r"\s+", "", hm.group(1))
+
+
 def anchors(ctx):
     import driver
     types, wrappers, procs, read_tags, write_tags, key_tags, lib_wrap = extract_vocab(driver.REPO)
@@ -582,6 +709,17 @@ def anchors(ctx):
     lines.append("Definition x_plist_write : list string := [%s]." % "; ".join(map(q, write_tags)))
     lines.append("Definition x_key_tags : list string := [%s]." % "; ".join(map(q, key_tags)))
     lines.append("Definition x_lib_wrap : list string := [%s]." % "; ".join(map(q, lib_wrap)))
+    structs, enums, helpers, wrapper_helper = extract_schema(driver.REPO)
+    q2 = lambda t: '"%s"' % t.replace('"', '""')
+    lines.append("Definition x_schema : list (string * string * string * string * string * "
+                 "list (string * string * string * string * string * string)) := [")
+    lines.append(";\n".join("  (%s, %s, %s, %s, %s, [%s])" % (q2(n), q2(r), q2(ra), q2(dn), q2(df), "; ".join(
+        "(%s, %s, %s, %s, %s, %s)" % tuple(map(q2, f)) for f in fs)) for n, r, ra, dn, df, fs in structs))
+    lines.append("].")
+    lines.append("Definition x_enums : list (string * string * list string * string) := [%s]." % "; ".join(
+        "(%s, %s, [%s], %s)" % (q2(n), q2(ra), "; ".join(map(q2, vs)), q2(dv)) for n, ra, vs, dv in enums))
+    lines.append("Definition x_helpers : list (string * string) := [%s]." % "; ".join("(%s, %s)" % (q2(a), q2(b)) for a, b in helpers))
+    lines.append("Definition x_wrapper_helper : string := %s." % q2(wrapper_helper))
     return "\n".join(lines) + "\n"
 
 
